@@ -1,6 +1,7 @@
 import PikaVerif.Lemmas.AffBalanced
 import PikaVerif.Lemmas.AffPool
 import PikaVerif.Lemmas.AffTerm
+import PikaVerif.Lemmas.AffNuma
 /-!
 # C15 — workers are pinned to distinct PUs inside the process mask
 
@@ -436,5 +437,162 @@ theorem C15_balanced_fuel_irrelevant (cfg : Cfg) (off goal ncores f : Nat) (hg :
 example : usable cfg21 = 1 ∧ avail cfg21 = 2 := by decide
 example : isDiverge (decode .scatter (cfgA 4)) = false :=
   C15_mask_used_never_hangs _ (Or.inl rfl) _ rfl
+
+/-! ## Follow-up C15t (2): numa-balanced — where it hangs, where it is right
+
+Three defects of `decode_numabalanced_distribution` (see the witnesses above):
+(a) `get_number_of_core_pus(num_core)` lacks `core_offset`; (b) the per-socket thread counts are
+rounded independently and may not add up; (c) the reported PU number lacks `core_offset`.
+* (a) is harmless exactly on `NumaShape` machines (sockets partition the cores, the `c`-th core of
+  each socket is as large as core `c`; e.g. all cores equal) — there the decoder always returns
+  (`C15_numa_terminates_wellshaped`); in general it does not return iff `numaHangs`
+  (`C15_numa_diverges_iff`, decidable, both directions).
+* (b) on `NumaShape` machines the *binding* clauses (one PU, inside the mask, distinct) hold for
+  the first `Σ num_threads_socket` workers; they hold for all workers iff the sum is the thread
+  count (`NumaBindOk`: `C15_numa_bind_ok`, converse `C15_numa_rounding_unbound`).
+* (c) reported = bound needs every thread on socket 0: `NumaOk` (`C15_numa_ok_all_clauses`). -/
+
+/-- **decidable guard for the binding clauses of numa-balanced** -/
+def NumaBindOk (cfg : Cfg) : Prop := NumaShape cfg.t ∧ (numaSharesOf cfg).sum = cfg.n
+
+instance (cfg : Cfg) : Decidable (NumaBindOk cfg) := by unfold NumaBindOk; infer_instance
+
+/-- **decidable guard for all clauses of numa-balanced**: socket 0 exists inside the machine, holds
+    enough usable PUs, and the decoder sends every thread there (`num_threads_socket = n, 0, …, 0`):
+    machines with one socket, process masks inside socket 0, thread counts whose share of every
+    other socket rounds to 0 -/
+def NumaOk (cfg : Cfg) : Prop :=
+  socketCores cfg.t 0 ≤ cfg.t.nc ∧ cfg.n ≤ balTotal cfg 0 (socketCores cfg.t 0) ∧
+  (numaSharesOf cfg).head? = some cfg.n ∧ (numaSharesOf cfg).tail.all (fun x => x == 0) = true
+
+instance (cfg : Cfg) : Decidable (NumaOk cfg) := by unfold NumaOk; infer_instance
+
+/-- **numa-balanced does not return exactly on the inputs satisfying the decidable predicate
+    `numaHangs`** (the request passes `check_num_threads` and some socket is asked for more
+    threads than its scan — limited by the sizes of the *first* cores of the machine — can find). -/
+theorem C15_numa_diverges_iff (cfg : Cfg) :
+    isDiverge (decode .numaBalanced cfg) = numaHangs cfg := by
+  rw [← decodeNuma_diverges_iff]
+  simp only [decode]
+  cases decodeNuma cfg <;> rfl
+
+/-- **On a machine of the shape the decoder assumes numa-balanced always returns.** -/
+theorem C15_numa_terminates_wellshaped (cfg : Cfg) (h : NumaShape cfg.t) :
+    isDiverge (decode .numaBalanced cfg) = false := by
+  rw [C15_numa_diverges_iff]
+  cases ht : tooMany cfg with
+  | true => simp [numaHangs, ht]
+  | false => exact numa_shape_no_hang cfg h ht
+
+/-- **numa-balanced, binding clauses**: under `NumaBindOk` every worker is bound to exactly one
+    PU of the machine inside the effective mask and no two workers share a PU. -/
+theorem C15_numa_bind_ok (cfg : Cfg) (hu : UsedZero cfg) (hok : NumaBindOk cfg)
+    (aff : Nat → List Nat) (pn : Nat → Nat) (h : decode .numaBalanced cfg = .ok aff pn) :
+    (∀ i, i < cfg.n → ∃ q, aff i = [q] ∧ q < numPus cfg.t ∧ (cfg.usePm = true → cfg.pm q = true)) ∧
+    (∀ i j, i < cfg.n → j < cfg.n → i ≠ j → aff i ≠ aff j) := by
+  have ht : tooMany cfg = false := by
+    cases ht : tooMany cfg with
+    | false => rfl
+    | true => simp [decode, decodeNuma, ht] at h
+  obtain ⟨aff', pn', e, b1, b2, _⟩ := numa_bind_spec cfg (effUsed_zero cfg hu) hok.1 ht
+  simp only [decode] at h
+  rw [e] at h
+  simp only [Res.ok.injEq] at h
+  obtain ⟨e1, e2⟩ := h
+  subst e1; subst e2
+  rw [hok.2] at b1 b2
+  refine ⟨?_, b2⟩
+  intro i hi
+  obtain ⟨q, h1, h2, h3⟩ := b1 i hi
+  refine ⟨q, h1, h2, ?_⟩
+  intro hp
+  simpa [ind, hp] using h3
+
+/-- **… and such a request is accepted**, by the decoder and by `affinity_data::init`. -/
+theorem C15_numa_bind_accepts (cfg : Cfg) (hu : UsedZero cfg) (hok : NumaBindOk cfg)
+    (hn : cfg.n ≤ avail cfg) : ∃ aff pn, affInit (some .numaBalanced) cfg = .bound aff pn := by
+  obtain ⟨aff, pn, e, b1, _, _⟩ :=
+    numa_bind_spec cfg (effUsed_zero cfg hu) hok.1 (tooMany_false cfg hn)
+  rw [hok.2] at b1
+  have hc : countInit cfg.n aff = cfg.n := by
+    apply countInit_all
+    intro i hi
+    obtain ⟨q, h1, _⟩ := b1 i hi
+    simp [h1]
+  refine ⟨aff, pn, ?_⟩
+  simp [affInit, decode, e, hc]
+
+/-- **Converse on well-shaped machines**: if the rounded per-socket counts do not add up to the
+    thread count, worker `Σ num_threads_socket` keeps an empty mask and `affinity_data::init`
+    refuses the (satisfiable) request — `NumaBindOk` is exact there. -/
+theorem C15_numa_rounding_unbound (cfg : Cfg) (hu : UsedZero cfg) (hs : NumaShape cfg.t)
+    (hn : cfg.n ≤ avail cfg) (hlt : (numaSharesOf cfg).sum < cfg.n) :
+    affOf (decode .numaBalanced cfg) (numaSharesOf cfg).sum = [] ∧
+    affInit (some .numaBalanced) cfg = .error .notAllBound := by
+  obtain ⟨aff, pn, e, _, _, b3⟩ :=
+    numa_bind_spec cfg (effUsed_zero cfg hu) hs (tooMany_false cfg hn)
+  have h0 := b3 _ (Nat.le_refl _)
+  have hc := countInit_lt cfg.n aff _ hlt h0
+  refine ⟨by simp [decode, e, affOf, h0], ?_⟩
+  have : countInit cfg.n aff ≠ cfg.n := by omega
+  simp [affInit, decode, e, this]
+
+/-- **numa-balanced, all clauses**: under `NumaOk` the request is accepted and every worker is
+    bound to exactly one PU inside the effective mask, pairwise distinct, reported = bound. -/
+theorem C15_numa_ok_all_clauses (cfg : Cfg) (hu : UsedZero cfg) (hok : NumaOk cfg)
+    (hn : cfg.n ≤ avail cfg) :
+    ∃ aff pn, decode .numaBalanced cfg = .ok aff pn ∧
+      affInit (some .numaBalanced) cfg = .bound aff pn ∧
+      (∀ i, i < cfg.n → ∃ q, aff i = [q] ∧ pn i = q ∧ q < numPus cfg.t ∧
+        (cfg.usePm = true → cfg.pm q = true)) ∧
+      (∀ i j, i < cfg.n → j < cfg.n → i ≠ j → aff i ≠ aff j) := by
+  obtain ⟨h1, h2, h3, h4⟩ := hok
+  have hsh : ∃ rest, numaSharesOf cfg = cfg.n :: rest ∧ ∀ x, x ∈ rest → x = 0 := by
+    cases hl : numaSharesOf cfg with
+    | nil => rw [hl] at h3; simp at h3
+    | cons a rest =>
+      rw [hl] at h3 h4
+      simp only [List.head?_cons, Option.some.injEq] at h3
+      simp only [List.tail_cons, List.all_eq_true, beq_iff_eq] at h4
+      exact ⟨rest, by rw [h3], h4⟩
+  obtain ⟨rest, hs, hz⟩ := hsh
+  obtain ⟨aff, pn, e, g⟩ := numa_first_socket_spec cfg (effUsed_zero cfg hu) (tooMany_false cfg hn)
+    h1 h2 rest hs hz
+  have hc : countInit cfg.n aff = cfg.n := by
+    apply countInit_all
+    intro i hi
+    obtain ⟨q, h1, _⟩ := g.bound i hi
+    simp [h1]
+  refine ⟨aff, pn, e, by simp [affInit, decode, e, hc], ?_, g.distinct⟩
+  intro i hi
+  obtain ⟨q, a1, a2, a3, a4⟩ := g.bound i hi
+  refine ⟨q, a1, a2, a3, ?_⟩
+  intro hp
+  simpa [ind, hp] using a4
+
+/-! non-vacuity of the numa-balanced guards, and the known counterexamples seen through them -/
+
+/-- 6 threads on 3×2×2: two per socket — binding right on all sockets (the reported PU numbers
+    of sockets 1, 2 are still wrong: `C15_numa_reported_pu_differs` is the 4-thread case) -/
+example : NumaBindOk (cfg322 6) := by decide
+example : (List.range 6).map (affOf (decode .numaBalanced (cfg322 6))) = [[0], [2], [4], [6], [8], [10]] := by
+  decide
+example : (List.range 6).map (pnOf (decode .numaBalanced (cfg322 6))) = [0, 2, 0, 2, 0, 2] := by decide
+/-- the 4-thread witness fails the guard because of the rounding (shares 1+1+1) -/
+example : NumaShape t322 ∧ ¬ NumaBindOk (cfg322 4) ∧ numaSharesOf (cfg322 4) = [1, 1, 1] := by decide
+/-- the asymmetric machines of the hang / shared-PU witnesses fail `NumaShape` -/
+example : ¬ NumaShape tAsym1 ∧ ¬ NumaShape tAsym2 := by decide
+example : numaHangs (cfgAsym tAsym1 6) = true ∧ numaHangs (cfgAsym tAsym2 10) = false := by decide
+/-- 2×2×2 with the mask {0,1,2} inside socket 0, 3 threads: all clauses hold -/
+def cfgS0 (n : Nat) : Cfg :=
+  { t := t222, pm := fun q => q == 0 || q == 1 || q == 2, usePm := true, used := 0, maxCores := 0, n := n }
+example : NumaOk (cfgS0 3) := by decide
+example : (List.range 3).map (affOf (decode .numaBalanced (cfgS0 3))) = [[0], [1], [2]] ∧
+    (List.range 3).map (pnOf (decode .numaBalanced (cfgS0 3))) = [0, 1, 2] := by decide
+/-- one thread on the full 2×2×2 machine: the share of socket 1 is cut to 0 -/
+example : NumaOk { cfgS0 1 with pm := fun _ => true } := by decide
+/-- two threads on the full machine go to two sockets: not `NumaOk` (reported PU of worker 1 is wrong) -/
+example : ¬ NumaOk { cfgS0 2 with pm := fun _ => true } ∧
+    NumaBindOk { cfgS0 2 with pm := fun _ => true } := by decide
 
 end PikaVerif.C15
